@@ -65,7 +65,7 @@ example : Comp.Spec.toBool (N := N) (.ns [[0x61]]) = true ∧ Comp.Spec.toBool (
 /-! ## Comparisons (`moveto_op_comp`) -/
 
 /-- Full statement — `moveto_op_comp` is the comparison table of XPath 1.0 §3.4 for every pair of operand types — is FALSE:
-a node-set compared with a boolean is evaluated node by node instead of through `boolean()` (finding F56). -/
+a node-set compared with a boolean is evaluated node by node instead of through `boolean()` (finding F256). -/
 theorem compare_table_fails :
     ¬ ∀ (c : Comp.Cfg) (op : BinOp) (a b : Comp.Opnd N), Comp.C.opComp c op a b = Comp.Spec.compare c op a b := by
   intro h
